@@ -758,7 +758,7 @@ def _check_vcurve(kernel, y, nodata, p, llas, lc=None):
     return problems
 
 
-def c04_vcurve(kernel, data, nodata, p=None, l0=None, lstep=None, grid=None, lc=None, mode=None, name=None):
+def c04_vcurve(kernel, data, nodata, p=None, l0=None, lstep=None, grid=None, lc=None, mode=None, name=None, series=None):
     rng = np.random.default_rng(17)
     valid = np.array([v is not None for v in data])
     base = np.array([0 if v is None else float(v) for v in data])
@@ -1370,6 +1370,22 @@ def c08_spi(entry, pixel, nodata, window=None, groups=None, cal=None, shape="mod
         for a in range(len(vals) - 1):
             if vals[a] != nodata and vals[a + 1] != nodata and obs[a] <= obs[a + 1] and vals[a] > vals[a + 1]:
                 probs.append(f"outlier x{factor:g}: observation {obs[a]:.4g} -> {vals[a]} but larger observation {obs[a + 1]:.4g} -> {vals[a + 1]}")
+                break
+    # 4. the same ladder through the grouped driver (one group, tight calibration data, int16 observations)
+    tight = (100 + rng.integers(-3, 4, T)).astype("int16")
+    for outlier in (130, 200, 600, 5000, 32000, 1, 0):
+        pix = tight.copy()
+        pix[-1] = outlier
+        try:
+            res = stats.gammastd_grp(pix, np.zeros(T, dtype="int16"), 1, nodata, np.array([[0, T - 1]], dtype="int16")).astype("int64")
+        except Exception as e:  # noqa
+            probs.append(f"grouped driver, outlier {outlier}: raised {type(e).__name__}"[:160])
+            continue
+        order = np.argsort(pix, kind="stable")
+        vals, obs = res[order], pix[order]
+        for a in range(len(vals) - 1):
+            if vals[a] != nodata and vals[a + 1] != nodata and obs[a] <= obs[a + 1] and vals[a] > vals[a + 1]:
+                probs.append(f"grouped driver, outlier {outlier}: observation {obs[a]} -> {vals[a]} but larger observation {obs[a + 1]} -> {vals[a + 1]}")
                 break
     return {"violates": bool(probs), "why": probs[:6]}
 
